@@ -78,7 +78,7 @@ func main() {
 				bad++
 			}
 			for _, ck := range matched {
-				if e.contracts[ck].Trusted || e.byKey[ck] == nil {
+				if e.contracts[ck].Trusted || e.contracts[ck].Opaque || e.byKey[ck] == nil {
 					continue
 				}
 				bad += vfOne(e, ck, verbose, dump)
